@@ -23,8 +23,9 @@ EXPLANATION = (
     "across several hundred lines of dictionary plumbing: not brought under contract).")
 TRUSTED = ["fibertree writes <prefix>-<rank>-<type>.csv for a registered trace (its documented naming)",
            "order contracts of C10 (topological order preserved by hoisting)"]
-ASSUMPTIONS = ["bounded: accelerator specifications of tests/integration and YAML literals of the repository's tests "
-               "(17 compile), each Einsum section cross-referenced"]
+ASSUMPTIONS = ["bounded: accelerator specifications of tests/integration and YAML literals of the repository's tests, two "
+               "index-math specifications, and their single-point style / intersector-type variants (about 50 compile), "
+               "each Einsum section cross-referenced"]
 
 
 def extra(uni, tier, seed):
@@ -108,7 +109,7 @@ def cross_reference(text):
 
 def bounded(uni, tier, seed):
     ev, fails, samples, distinct = 0, [], [], set()
-    for name, txt in common.accelerator_specs():
+    for name, txt in common.accelerator_variants(tier):
         try:
             text = str(common.compile_full(txt))
         except Exception:      # noqa
@@ -124,7 +125,10 @@ def bounded(uni, tier, seed):
                           "witness": {"spec": name, "problems": probs[:5], "yaml": txt[:1500]}})
     return {"evaluations": ev, "distinct_nontrivial": len(distinct), "failures": fails, "samples": samples,
             "rule": "emitted metrics-mode text of every accelerator specification of the repository (integration YAMLs + "
-                    "YAML literals of the tests, default all-temporal spacetime filled in where missing): one "
+                    "YAML literals of the tests, default all-temporal spacetime filled in where missing), of two "
+                    "index-math specifications (convolution / strided access with a buffered input) and of every "
+                    "single-point variant of these (style of one buffer binding flipped lazy <-> eager, type of one "
+                    "intersector changed) that the compiler accepts: one "
                     "begin/endCollect bracket per Einsum around its loops; every .csv consumed after endCollect "
                     "(traces dictionary, filterTrace inputs, numIters) is a registered <prefix>-<rank>-<type>.csv or an "
                     "earlier filterTrace output; consumeTrace only on consumable registrations; intersectors created "
